@@ -99,7 +99,8 @@ fn case(cfg: &Config, alg: Algorithm, a: &[u32], b: &[u32], fam: &str, out: &mut
     let mut mon = TraceMon::new(&eq, 0..a.len(), 0..b.len());
     cmp_reset();
     out.eval();
-    let r = guard(|| similar::algorithms::diff(alg, &mut mon, &ca[..], 0..ca.len(), &cb[..], 0..cb.len()));
+    let slices_entry = fam.ends_with("(diff_slices)");
+    let r = guard(|| if slices_entry { similar::algorithms::diff_slices(alg, &mut mon, &ca[..], &cb[..]) } else { similar::algorithms::diff(alg, &mut mon, &ca[..], 0..ca.len(), &cb[..], 0..cb.len()) });
     let cmps = cmp_count();
     match r {
         Err(p) => out.violation("panic", format!("diff panicked: {} | alg={} family={} N={} M={}", p, alg_name(alg), fam, a.len(), b.len())),
@@ -273,6 +274,102 @@ pub fn families() -> Vec<Box<dyn Family>> {
                 for alg in [Algorithm::Myers, Algorithm::Patience] {
                     out.nontrivial(&(alg_name(alg), n, idx));
                     case(cfg, alg, &a, &b, "huge_near_identical", out);
+                }
+            },
+        ),
+        family(
+            "huge_identical_shuffled",
+            "IDENTICAL inputs and inputs with one point edit (D = 0..2) of 2^18 .. 2^20 items (thorough 2^22) whose values are a random permutation of distinct numbers or random draws from a large alphabet - i.e. NOT presorted - x {Myers, Patience} x {algorithms::diff, algorithms::diff_slices}: every kind of element comparison is counted (==, and cmp / partial_cmp of Ord), so an N log N pre-pass (sorting, tree maps) over the items shows up against the linear bound",
+            false,
+            1,
+            |cfg| if cfg.tiny { 1 } else { cfg.tier.pick(8, 24) },
+            |idx, cfg, out| {
+                let mut rng = Rng::for_case(cfg.seed, "c19.shuffled", idx);
+                let n = if cfg.tiny { 24 } else { *rng.pick(&[1usize << 18, 1 << 19, 1 << 20, 1 << cfg.tier.pick(20, 22)]) };
+                let mut a: Vec<u32> = if idx % 3 == 2 { (0..n).map(|_| rng.below(1 << 30) as u32).collect() } else { (0..n as u32).collect() };
+                if idx % 3 != 2 {
+                    // Fisher-Yates
+                    for i in (1..n).rev() {
+                        let j = rng.below(i + 1);
+                        a.swap(i, j);
+                    }
+                }
+                let mut b = a.clone();
+                let edits = (idx / 3 % 2) as usize; // 0: identical, 1: one substitution
+                if edits == 1 {
+                    let i = rng.below(n);
+                    b[i] = 3_000_000_000 + rng.below(1000) as u32;
+                }
+                let entry = if idx % 2 == 0 { "huge_identical_shuffled (diff_slices)" } else { "huge_identical_shuffled" };
+                out.sample(|| format!("N=M={} shuffled values, {} edit(s), {}", n, edits, entry));
+                out.count("huge_identical_shuffled_cases");
+                for alg in [Algorithm::Myers, Algorithm::Patience] {
+                    out.nontrivial(&(alg_name(alg), n, idx));
+                    case(cfg, alg, &a, &b, entry, out);
+                }
+            },
+        ),
+        family(
+            "unique_and_repeated_between_anchors",
+            "near-identical inputs (200 .. 20000 items; D = 0..6) that MIX items occurring once with repeated items between them (large alphabet with random duplicates; records followed by repeated separators; unique headers over repeated bodies), so that Patience finds many anchors with gaps of repeated items in between - the work on those gaps must stay proportional to the gap x {Patience, Myers}",
+            false,
+            1,
+            |cfg| if cfg.tiny { 2 } else { cfg.tier.pick(120, 1200) },
+            |idx, cfg, out| {
+                let mut rng = Rng::for_case(cfg.seed, "c19.mixed", idx);
+                let n = if cfg.tiny { 16 } else { *rng.pick(&[200usize, 1000, 3000, 8000, cfg.tier.pick(8000, 20_000)]) };
+                let a: Vec<u32> = match idx % 3 {
+                    0 => {
+                        // large alphabet with random duplicates: about a third of the items repeat
+                        (0..n).map(|i| if rng.chance(1, 3) { rng.below(n / 8 + 2) as u32 } else { 1_000_000 + i as u32 }).collect()
+                    }
+                    1 => {
+                        // unique record, then 1..4 copies of one of 3 separators
+                        let mut v = Vec::with_capacity(n);
+                        let mut i = 0u32;
+                        while v.len() < n {
+                            v.push(1_000_000 + i);
+                            i += 1;
+                            let sep = rng.below(3) as u32;
+                            for _ in 0..1 + rng.below(4) {
+                                v.push(sep);
+                            }
+                        }
+                        v
+                    }
+                    _ => {
+                        // unique header followed by a repeated body pattern r s r s
+                        let mut v = Vec::with_capacity(n);
+                        let mut i = 0u32;
+                        while v.len() < n {
+                            v.push(1_000_000 + i);
+                            i += 1;
+                            for k in 0..2 + rng.below(6) {
+                                v.push((k % 2) as u32);
+                            }
+                        }
+                        v
+                    }
+                };
+                let mut b = a.clone();
+                for _ in 0..rng.below(4) {
+                    let i = rng.below(b.len());
+                    match rng.below(3) {
+                        0 => b[i] = 2_000_000_000 + rng.below(1000) as u32,
+                        1 => {
+                            b.remove(i);
+                        }
+                        _ => {
+                            let x = b[rng.below(b.len())];
+                            b.insert(i, x);
+                        }
+                    }
+                }
+                out.sample(|| format!("N={} M={} mixture kind {} old={}", a.len(), b.len(), idx % 3, fmt_seq(&a)));
+                out.count("mixed_unique_repeated_cases");
+                for alg in [Algorithm::Patience, Algorithm::Myers] {
+                    out.nontrivial(&(alg_name(alg), n, idx));
+                    case(cfg, alg, &a, &b, "unique_and_repeated", out);
                 }
             },
         ),
